@@ -61,6 +61,18 @@ pub fn add_completers(n: &mut Node, u: &mut Un, shell: bool) {
                 add_completers(x, u, shell);
             }
         }
+        Node::Optional { n: inner, .. }
+        | Node::Many { n: inner, .. }
+        | Node::Some { n: inner, .. }
+        | Node::Fallback { n: inner, .. }
+        | Node::FallbackWith { n: inner, .. }
+            if str_leaf_id(inner).is_some() && u.chance(70) =>
+        {
+            // the completer sits on top of the wrapper: `argument(..).optional().complete(f)`
+            let id = str_leaf_id(inner).unwrap();
+            let whole = std::mem::replace(n, Node::Pure(String::new()));
+            *n = wrap_completer(whole, id, u, shell);
+        }
         Node::Optional { n, .. }
         | Node::Many { n, .. }
         | Node::Some { n, .. }
@@ -80,6 +92,21 @@ pub fn add_completers(n: &mut Node, u: &mut Un, shell: bool) {
         | Node::Complete { n, .. }
         | Node::CompleteShell(n, _)
         | Node::Boxed(n) => add_completers(n, u, shell),
+    }
+}
+
+/// id of a string-typed argument leaf
+fn str_leaf_id(n: &Node) -> Option<usize> {
+    match n {
+        Node::Named(x) => match x.kind {
+            NamedKind::Arg { ty: Ty::Str, .. } => Some(x.id),
+            _ => None,
+        },
+        // positionals are left out on purpose: `positional(..).optional().complete(f)` calls f
+        // with "nothing parsed" whenever the slot is still open, also while the value of a
+        // hidden argument is being typed - whose candidates those are is not something the
+        // property decides (see DESIGN.md, round 4)
+        _ => None,
     }
 }
 
